@@ -1,0 +1,121 @@
+//go:build verif
+
+// Contracts for govc (see /verif/DESIGN.md). Comment-only file.
+
+package btree
+
+//@ property C10
+
+// ---- leaf nodes: byte layout -------------------------------------------------------------------------
+// [0] number of keys n, [1] prefix length, then n entries of (2 byte field position, 5 byte offset),
+// then the 2 byte end position (= node size), the shared prefix, and the key suffixes, contiguous.
+// lfPos(nd, i) for i in 0..n is the position where suffix i starts (i == n: the node size).
+//@ spec lfN(nd leafNode) int = int(nd[0])
+//@ spec lfPre(nd leafNode) int = int(nd[1])
+//@ spec lfPos(nd leafNode, i int) int = int(nd[2 + i * 7]) * 256 + int(nd[3 + i * 7])
+// lfNext(nd, i) is the position stored in the NEXT entry (= lfPos(nd, i + 1), written with the byte
+// indexes the code uses: entry base + 7, + 8). An entry is OK when its suffix lies between the end of
+// the header+prefix and the node size; a node is well formed when every entry is.
+//@ spec lfNext(nd leafNode, i int) int = int(nd[9 + i * 7]) * 256 + int(nd[10 + i * 7])
+//@ spec lfSize(nd leafNode) int = int(nd[2 + lfN(nd) * 7]) * 256 + int(nd[3 + lfN(nd) * 7])
+//@ spec lfEntryOK(nd leafNode, i int) bool = 4 + 7 * lfN(nd) + lfPre(nd) <= lfPos(nd, i) && lfPos(nd, i) <= lfNext(nd, i) && lfNext(nd, i) <= lfSize(nd)
+//@ spec wfLeaf(nd leafNode) bool = len(nd) >= 4 && 4 + 7 * lfN(nd) <= len(nd) && lfSize(nd) <= len(nd) && 4 + 7 * lfN(nd) + lfPre(nd) <= lfSize(nd) && forall i :: 0 <= i && i < lfN(nd) ==> lfEntryOK(nd, i)
+
+//@ func (nd leafNode) nkeys() (r)
+//@   requires len(nd) >= 1
+//@   ensures! r == lfN(nd)
+//@ func (nd leafNode) noffs() (r)
+//@   requires len(nd) >= 1
+//@   ensures! r == lfN(nd)
+//@ func (nd leafNode) size() (r)
+//@   requires wfLeaf(nd)
+//@   ensures! r == lfSize(nd) && r <= len(nd)
+//@ func (nd leafNode) offset(i) (r)
+//@   mode bv
+//@   requires wfLeaf(nd) && 0 <= i && i < lfN(nd)
+//@   ensures! r == uint64(nd[4 + i * 7]) * 4294967296 + uint64(nd[5 + i * 7]) * 16777216 + uint64(nd[6 + i * 7]) * 65536 + uint64(nd[7 + i * 7]) * 256 + uint64(nd[8 + i * 7]) && r < 1099511627776
+//@ func (nd leafNode) suffix(i) (r)
+//@   requires wfLeaf(nd) && 0 <= i && i < lfN(nd) && lfEntryOK(nd, i)
+//@   ensures! ref(r) == ref(nd) && off(r) == off(nd) + lfPos(nd, i) && len(r) == lfNext(nd, i) - lfPos(nd, i)
+//@ func (nd leafNode) prefix() (r)
+//@   requires wfLeaf(nd)
+//@   ensures! len(r) == lfPre(nd) && (lfPre(nd) > 0 ==> ref(r) == ref(nd) && off(r) == off(nd) + 4 + 7 * lfN(nd))
+
+// ---- leaf iterator: stays within -1 .. n ---------------------------------------------------------------
+//@ func (it *leafIter) next() (r)
+//@   requires it != nil && len(it.nd) >= 1 && -1 <= it.i && it.i <= lfN(it.nd)
+//@   modifies it.i
+//@   ensures! (r <==> old(it.i) + 1 < lfN(it.nd)) && it.i == (old(it.i) >= lfN(it.nd) ? old(it.i) : old(it.i) + 1) && -1 <= it.i && it.i <= lfN(it.nd)
+//@ func (it *leafIter) prev() (r)
+//@   requires it != nil && -1 <= it.i
+//@   modifies it.i
+//@   ensures! (r <==> old(it.i) >= 1) && it.i == (old(it.i) < 0 ? old(it.i) : old(it.i) - 1) && -1 <= it.i
+//@ func (it *leafIter) eof() (r)
+//@   requires it != nil && len(it.nd) >= 1
+//@   ensures! r <==> it.i < 0 || it.i >= lfN(it.nd)
+
+// key(i): prefix followed by suffix i (fresh string)
+//@ func cat(x, y) (r)
+//@   ensures! len(r) == len(x) + len(y) && (forall k :: 0 <= k && k < len(x) ==> r[k] == x[k]) && (forall k :: 0 <= k && k < len(y) ==> r[len(x) + k] == y[k])
+//@ func (nd leafNode) key(i) (r)
+//@   requires wfLeaf(nd) && 0 <= i && i < lfN(nd) && lfEntryOK(nd, i)
+//@   ensures! len(r) == lfPre(nd) + lfNext(nd, i) - lfPos(nd, i)
+//@   ensures! prefix_part: forall k :: 0 <= k && k < lfPre(nd) ==> r[k] == nd[4 + 7 * lfN(nd) + k]
+//@   ensures! suffix_part: forall k :: 0 <= k && k < lfNext(nd, i) - lfPos(nd, i) ==> r[lfPre(nd) + k] == nd[lfPos(nd, i) + k]
+
+// search / seek: every node access is in range on a well-formed node, the result is a position 0..n
+// (a found position is a real entry), and the binary searches terminate
+//@ func (nd leafNode) search(key) (r, found)
+//@   requires wfLeaf(nd)
+//@   ensures! 0 <= r && r <= lfN(nd) && (found ==> r < lfN(nd))
+//@   loop 0 invariant 0 <= lo && lo <= hi + 1 && hi < lfN(nd)
+//@   loop 0 decreases hi - lo + 1
+//@ func (nd leafNode) seek(key) (r)
+//@   requires wfLeaf(nd)
+//@   ensures! 0 <= r.i && r.i <= lfN(nd) && r.nd == nd
+//@   loop 0 invariant 0 <= lo && lo <= hi && hi <= lfN(nd)
+//@   loop 0 decreases hi - lo
+
+// ---- tree nodes: byte layout ---------------------------------------------------------------------------
+// [0] number of keys n, then n entries of (2 byte field position, 5 byte child offset), the 2 byte end
+// position (= node size) and the 5 byte final child offset, then the keys, contiguous. There are n keys and
+// n + 1 child offsets (the special empty node "\x00\x00\x03" has neither).
+//@ spec tnN(nd treeNode) int = int(nd[0])
+//@ spec tnPos(nd treeNode, i int) int = int(nd[1 + i * 7]) * 256 + int(nd[2 + i * 7])
+//@ spec tnNext(nd treeNode, i int) int = int(nd[8 + i * 7]) * 256 + int(nd[9 + i * 7])
+//@ spec tnSize(nd treeNode) int = int(nd[1 + tnN(nd) * 7]) * 256 + int(nd[2 + tnN(nd) * 7])
+//@ spec tnEntryOK(nd treeNode, i int) bool = 8 + 7 * tnN(nd) <= tnPos(nd, i) && tnPos(nd, i) <= tnNext(nd, i) && tnNext(nd, i) <= tnSize(nd)
+//@ spec wfTree(nd treeNode) bool = len(nd) >= 8 + 7 * tnN(nd) && 8 + 7 * tnN(nd) <= tnSize(nd) && tnSize(nd) <= len(nd) && forall i :: 0 <= i && i < tnN(nd) ==> tnEntryOK(nd, i)
+//@ func (nd treeNode) nkeys() (r)
+//@   requires len(nd) >= 1
+//@   ensures! r == tnN(nd)
+//@ func (nd treeNode) size() (r)
+//@   requires len(nd) >= 3 + 7 * tnN(nd)
+//@   ensures! r == tnSize(nd)
+//@ func (nd treeNode) noffs() (r)
+//@   requires len(nd) >= 3 + 7 * tnN(nd)
+//@   ensures! r == (tnN(nd) == 0 && tnSize(nd) == 3 ? 0 : tnN(nd) + 1)
+//@ func (nd treeNode) key(i) (r)
+//@   requires wfTree(nd) && 0 <= i && i < tnN(nd) && tnEntryOK(nd, i)
+//@   ensures! ref(r) == ref(nd) && off(r) == off(nd) + tnPos(nd, i) && len(r) == tnNext(nd, i) - tnPos(nd, i)
+//@ func (nd treeNode) offset(i) (r)
+//@   mode bv
+//@   requires wfTree(nd) && 0 <= i && i <= tnN(nd)
+//@   ensures! r == uint64(nd[3 + i * 7]) * 4294967296 + uint64(nd[4 + i * 7]) * 16777216 + uint64(nd[5 + i * 7]) * 65536 + uint64(nd[6 + i * 7]) * 256 + uint64(nd[7 + i * 7]) && r < 1099511627776
+// search / seek: all accesses in range on a well-formed node (which has n + 1 offsets), result 0..n, termination
+//@ func (nd treeNode) search(key) (r, off)
+//@   requires wfTree(nd)
+//@   ensures! 0 <= r && r <= tnN(nd)
+//@   loop 0 invariant 0 <= lo && lo <= hi + 1 && hi < tnN(nd)
+//@   loop 0 decreases hi - lo + 1
+//@ func (nd treeNode) seek(key) (r)
+//@   requires wfTree(nd)
+//@   ensures! 0 <= r.i && r.i <= tnN(nd) && r.nd == nd
+//@   loop 0 invariant 0 <= lo && lo <= hi + 1 && hi < tnN(nd)
+//@   loop 0 decreases hi - lo + 1
+
+// ---- not under contract ------------------------------------------------------------------------------------
+// leafBuilder.finishInto (the encoder), leaf insert/update/delete, splitTo, the tree node builders, merge.go and
+// builder.go: a functional contract for finishInto (witness of suffix positions, two loops with quantified
+// invariants over the header, the prefix and the copied suffixes) was written and did not discharge within the
+// time limits (8 of 65 obligations timed out); it was removed rather than left half proved.
